@@ -35,6 +35,17 @@ CHECKS = {
         "correspondence checks; paired runs are differential testing bounded by generators and menus.",
    technique="Lean 4 proof (generic monotonicity lemma + per-model antitone decision) + paired-run relation executed on the real detectors",
    ref="§7 C17"),
+ "C04": dict(
+   text="Lean theorems over carrier-polymorphic models of CUSUM.update / PageHinkley.update: for every history over an ordered field the CUSUM statistics "
+        "are the maximal suffix sums of the standardised current-epoch observations (target/sd given, estimated from the first burn_in observations, or "
+        "re-estimated from the last burn_in after a drift) and Page-Hinkley's running mean / cumulative sum / extrema are the documented statistics of the "
+        "epoch; for every carrier (incl. the executed Float): no alarm during burn-in, decision = documented test, each step reads only the epoch state "
+        "and the supplied observation, continuation after a drift = fresh detector with the documented carry-over. Tied to the code by differential "
+        "correspondence (exhaustive small streams + random multi-alarm streams) and an independent exact-rational specification run on implementation traces.",
+   note="Trusted: Lean kernel; rounding (field theorems vs Float) covered only by the correspondence and thin-margin rule; excluded: burn_in=0, target "
+        "without sd_hat, NaN/inf data; histories containing an update that raised (sd_hat=0) are outside cusum_spec but the raise is modelled and checked.",
+   technique="Lean 4 proof (invariant over all histories, refinement to max-suffix-sum / textbook PH statistics, epoch simulation) + differential correspondence + independent rational spec monitor",
+   ref="§7 C04"),
  "C13": dict(
    text="Lean 4 theorems for all n and all parameters: majority/minimum/ordered verdict iff count rule, range, monotonicity; "
         "ConfirmedElection refines the documented per-member voter automaton, counters <= wait_time. Tied to election.py by an "
